@@ -295,6 +295,8 @@ class Models:
         if n is None:
             return None
         v = r.variant
+        if any(not isinstance(x, IntV) for x in r.fields.values()):
+            return None
         if v == "Range":
             lo, hi = r.fields["start"].l, r.fields["end"].l
         elif v == "RangeFrom":
